@@ -12,6 +12,16 @@ import vlib
 TESTDIR = os.path.join(vlib.REPO, "aldor/lib/axllib/test")
 
 
+# Corpus programs whose behaviour the language does not define (they are bug reports kept in the test directory): the
+# observation is a function of storage layout, not of the program.  Counted as "excluded" in the evidence.
+EXCLUDE = {
+    "bug1022": "prints a lexical that is never initialised (the bug report it was filed for): 0 on one configuration, garbage on others",
+    "bug1113": "format(1, str, 1) writes into a string literal: read-only storage in a C executable, heap storage in the interpreter",
+    "bug1176": "dispose! of a string literal: frees storage the program does not own",
+    "bug1041": "recursion 5000 deep: the interpreter runs out of C stack (a resource limit of the host, not behaviour of the program)",
+}
+
+
 def names():
     return sorted(n for n in os.listdir(TESTDIR) if os.path.exists(os.path.join(TESTDIR, n, n + ".as")))
 
@@ -52,10 +62,16 @@ def normalise(r):
     return out, (r["rc"] == 0)
 
 
-def observe(chk, build, sample, configs, wd, prop, reference):
+def observe(chk, build, sample, configs, wd, prop, reference, group=None, dump=None):
     """configs: list of (label, route, opts).  reference: label of the configuration run twice to filter out programs
-    that are not deterministic or do not run at all.  Returns stats; reports disagreements as violations."""
+    that are not deterministic or do not run at all.  group(name, label) names the Obs input an observation belongs to
+    (default: the program; C03 groups by (program, level), C02 by (program, route)): observations of one input must
+    agree.  Returns stats; reports disagreements as violations."""
+    if group is None:
+        group = lambda n, label: n
     ref = [c for c in configs if c[0] == reference][0]
+    nexcl = len([n for n in sample if n in EXCLUDE])
+    sample = [n for n in sample if n not in EXCLUDE]
     with concurrent.futures.ThreadPoolExecutor(max_workers=vlib.NCPU) as ex:
         r1 = list(ex.map(lambda n: run_one(build, n, ref[1], ref[2], os.path.join(wd, "ref1")), sample))
         r2 = list(ex.map(lambda n: run_one(build, n, ref[1], ref[2], os.path.join(wd, "ref2")), sample))
@@ -77,17 +93,26 @@ def observe(chk, build, sample, configs, wd, prop, reference):
     detail = {}
     for n in usable:
         o, ok = normalise(refout[n])
-        events.append({"ev": "Observe", "input": n, "cfg": reference, "digest": digest(o, ok)})
-        detail[(n, reference)] = (o, ok, refout[n])
+        events.append({"ev": "Observe", "input": group(n, reference), "cfg": reference, "digest": digest(o, ok)})
+        detail[(group(n, reference), reference)] = (n, o, ok, refout[n])
+    unobserved = {"timeout": 0, "does-not-build": 0}
     for (n, c), r in zip(jobs, res):
+        # A time-out on this shared machine, or a program that cannot be built on a route with the plain command line
+        # (foreign code, extra libraries), is not an observation of the program's behaviour: counted, not compared.
+        # (Non-termination of the compiler is looked for with the generated family, whose programs are small.)
         if r["timeout"]:
-            o, ok = "<timeout in %s>" % r["phase"], False
-        elif r["phase"] in ("compile", "link"):
-            o, ok = "<%s failed>" % r["phase"], False
-        else:
-            o, ok = normalise(r)
-        events.append({"ev": "Observe", "input": n, "cfg": c[0], "digest": digest(o, ok)})
-        detail[(n, c[0])] = (o, ok, r)
+            unobserved["timeout"] += 1
+            continue
+        if r["phase"] in ("compile", "link"):
+            if r["phase"] == "compile" and ("Program fault" in r["out"] or "Bug:" in r["out"]):
+                # the compiler itself faulted under this configuration: that is behaviour of the configuration
+                r = dict(r, out="<compiler fault>\n", rc=1)
+            else:
+                unobserved["does-not-build"] += 1
+                continue
+        o, ok = normalise(r)
+        events.append({"ev": "Observe", "input": group(n, c[0]), "cfg": c[0], "digest": digest(o, ok)})
+        detail[(group(n, c[0]), c[0])] = (n, o, ok, r)
         chk.case(("corpus", n, c[0]))
     trace = os.path.join(wd, "obs.ndjson")
     vlib.write_ndjson(trace, events)
@@ -101,12 +126,16 @@ def observe(chk, build, sample, configs, wd, prop, reference):
         if isinstance(l, str) and l.startswith("DISAGREE"):
             # DISAGREE <<event, input, cfg, first cfg>>
             parts = [p.strip().strip('"') for p in l[l.index("<<") + 2:l.rindex(">>")].split(",")]
-            n, cfg, first = parts[1], parts[2], parts[3]
-            o1, ok1, _ = detail[(n, first)]
-            o2, ok2, r2_ = detail[(n, cfg)]
+            g, cfg, first = parts[1], parts[2], parts[3]
+            n, o1, ok1, _ = detail[(g, first)]
+            n, o2, ok2, r2_ = detail[(g, cfg)]
             nbad += 1
             chk.violation("corpus program %s: observation under %s differs from %s" % (n, cfg, first),
                           {"program": n, "cfg": cfg, "reference": first, "out": o2[:3000], "ok": ok2,
                            "reference_out": o1[:3000], "reference_ok": ok1, "phase": r2_["phase"]},
                           key={"kind": "corpus-disagree", "program": n, "cfg": cfg})
-    return {"sampled": len(sample), "usable": len(usable), "skipped": skipped, "observations": len(events), "disagreements": nbad}
+    if dump:
+        with open(dump, "w") as f:
+            json.dump([{"program": v[0], "input": k[0], "cfg": k[1], "ok": v[2], "out": v[1][:2000]} for k, v in sorted(detail.items())], f)
+    return {"sampled": len(sample) + nexcl, "excluded_undefined_behaviour": nexcl, "usable": len(usable), "skipped": skipped, "unobserved": unobserved,
+            "observations": len(events), "disagreements": nbad}
